@@ -135,17 +135,6 @@ theorem c14_tail_independent (cs : Classes) (h : Heap) (hw : heapWF cs h = true)
   rw [e] at h2
   simp [isPaeOrOk] at h2
 
-/-- the shape of that evaluation at a `*` step, spelled out -/
-theorem c14_star_step (cs : Classes) (h : Heap) (arg : Val) (rest : List (String × Val)) (cur : Val) :
-    refEval cs h (("x", arg) :: rest) cur =
-      .ok (.list (keepOk ((children cs h cur).map (refEval cs h rest)))) := by
-  simp [refEval]
-
-theorem c14_starstar_step (cs : Classes) (h : Heap) (arg : Val) (rest : List (String × Val)) (cur : Val) :
-    refEval cs h (("X", arg) :: rest) cur =
-      .ok (.list (keepOk ((descend cs h cur).map (refEval cs h rest)))) := by
-  simp [refEval]
-
 /-- **Every further wildcard adds one level of list nesting**: a successful evaluation of a path
     with `k` wildcards is a `k`-level nested list. -/
 theorem c14_nesting (cs : Classes) (h : Heap) (hw : heapWF cs h = true) (hc : classesWF cs = true)
@@ -154,6 +143,17 @@ theorem c14_nesting (cs : Classes) (h : Heap) (hw : heapWF cs h = true) (hc : cl
   rw [(c14_tail_independent cs h hw hc steps hs cur).1] at hr
   exact refEval_nested cs h steps cur r hr
 
+/-! ### where a wildcard path can fail -/
+
+/-- **Entries for which the steps fail are dropped instead of raising — so a path fails only in
+    front of its first wildcard**: the evaluation succeeds iff the steps in front of the first
+    wildcard can be walked from the target (whatever follows the wildcard, whatever it matches). -/
+theorem c14_fails_only_before_first_wildcard (cs : Classes) (h : Heap) (hw : heapWF cs h = true)
+    (hc : classesWF cs = true) (steps : List (String × Val)) (hs : wfOps steps = true) (cur : Val) :
+    isOkE (evalSteps cs h steps cur) = reachable cs h cur steps := by
+  rw [(c14_tail_independent cs h hw hc steps hs cur).1]
+  exact refEval_ok_iff_reachable cs h steps cur
+
 /-- **Assign / Delete through wildcards act on every entry**: `_apply_for_each` (flatten
     `layers - 1` times, then call the operation on every inner value) applies the operation to
     exactly the entries of the nested result, in order, on one heap, stopping at the first failure. -/
@@ -161,8 +161,8 @@ theorem c14_broadcast (cs : Classes) (h : Heap) (hw : heapWF cs h = true) (hc : 
     (steps : List (String × Val)) (hs : wfOps steps = true) (key : Val) (kind : MutKind) (target : Val) :
     modelMutate cs h steps key kind target =
       match refMutate cs h steps key kind target with
-      | .ok (h', e) => .mutated h' (e.map (merrName kind))
-      | .error (.pae _) => .pae
+      | .ok (h', e) => .mutated h' (e.map (merrName kind)) true
+      | .error (.pae _) => if usesMissing kind then .backfill else .paeAt h
       | .error (.other c) => .other c := by
   unfold modelMutate refMutate
   rw [(c14_tail_independent cs h hw hc steps hs target).1]
@@ -174,14 +174,6 @@ theorem c14_broadcast (cs : Classes) (h : Heap) (hw : heapWF cs h = true) (hc : 
   | ok r =>
     simp only
     rw [applyForEach_eq _ _ _ _ (refEval_nested cs h steps target r hr)]
-
-/-- without the flag `_del_one` is the plain deletion -/
-theorem delOp_false (cs : Classes) (op : String) (h : Heap) (d key : Val) :
-    delOp cs op false h d key = delRaw cs op h d key := by
-  unfold delOp
-  cases delRaw cs op h d key with
-  | ok h' => rfl
-  | error e => cases e <;> rfl
 
 /-- **`ignore_missing=True` is honoured per entry** (Delete through wildcards acts on *every*
     entry): an entry that lacks the key / index / attribute — the deletion raises a class the
@@ -221,21 +213,63 @@ theorem c14_ignore_never_path_delete_error (cs : Classes) (op : String) (key : V
       | typeError => simp
       | raw c' => simp
 
-/-- … and when the parent path itself cannot be reached (no wildcard before the failing segment)
-    the Delete does nothing and returns -/
-theorem c14_ignore_missing_parent (cs : Classes) (h : Heap) (steps : List (String × Val)) (key : Val)
-    (op : String) (target : Val) (e : PyExc) (hp : evalSteps cs h steps target = .error (.pae e)) :
-    modelMutate cs h steps key (.delete op true) target = .mutated h none := by
-  simp [modelMutate, hp, ignoresMiss]
+/-- **`ignore_missing=True`, as a whole**: a Delete built with the flag, through any path with any
+    wildcards on any heap, never lets a PathAccessError out and never raises a PathDeleteError (no
+    failure of a class `_del_one`'s `except` names, `MErr.assign`, survives) — a parent path that cannot
+    be walked leaves the target exactly as it is, an entry lacking the key is left alone —; what it can
+    still raise is what no `except` clause names (UnregisteredTarget, a raw TypeError).  It returns the
+    target. -/
+theorem c14_ignore_total (cs : Classes) (h : Heap) (hw : heapWF cs h = true) (hc : classesWF cs = true)
+    (steps : List (String × Val)) (hs : wfOps steps = true) (key : Val) (op : String) (target : Val) :
+    ∃ (h' : Heap) (e : Option MErr),
+      modelMutate cs h steps key (.delete op true) target =
+        .mutated h' (e.map (merrName (.delete op true))) true ∧
+      (∀ c, e ≠ some (.assign c)) ∧
+      (reachable cs h target steps = false → h' = h ∧ e = none) := by
+  rw [c14_broadcast cs h hw hc steps hs key (.delete op true) target]
+  have hreach := refEval_ok_iff_reachable cs h steps target
+  obtain ⟨he, hne⟩ := c14_tail_independent cs h hw hc steps hs target
+  unfold refMutate
+  cases hr : refEval cs h steps target with
+  | error e =>
+    cases e with
+    | pae x => exact ⟨h, none, by simp [ignoresMiss], by simp, fun _ => ⟨rfl, rfl⟩⟩
+    | other c => exact absurd (he.trans hr) (hne c)
+  | ok r =>
+    rw [hr] at hreach
+    simp only [isOkE] at hreach
+    have hnd := c14_ignore_never_path_delete_error cs op key (leaves (stars steps) r) h
+    rcases hm : mutateAll (mutOp cs key (.delete op true)) h (leaves (stars steps) r) with ⟨h', e⟩
+    rw [hm] at hnd
+    exact ⟨h', e, by simp only [hm], fun c => hnd c, fun hf => by rw [← hreach] at hf; cases hf⟩
 
-/-- **`missing=` plays no part below a wildcard**: whenever the parent path can be evaluated —
-    in particular whenever it starts with a wildcard, after which failing entries are dropped —
-    Assign with a `missing` factory is Assign without one: every entry is assigned, entries on
-    which the rest of the path fails are left alone and nothing is created in them. -/
-theorem c14_missing_irrelevant (cs : Classes) (h : Heap) (steps : List (String × Val)) (key : Val)
+/-- **`missing=` is consulted only in front of the first wildcard**: `Assign(path, v, missing=f)`
+    reaches its backfill branch (`except PathAccessError as pae: … create the rest with f`) iff the
+    steps in front of the first wildcard of the path cannot be walked; otherwise — in particular
+    whenever the path starts with a wildcard — it is `Assign(path, v)`: every entry is assigned,
+    entries on which the rest of the path fails are left alone and nothing is created in them. -/
+theorem c14_missing_only_before_first_wildcard (cs : Classes) (h : Heap) (hw : heapWF cs h = true)
+    (hc : classesWF cs = true) (steps : List (String × Val)) (hs : wfOps steps = true) (key : Val)
     (op : String) (v : Val) (target : Val) :
     modelMutate cs h steps key (.assign op v true) target =
-      modelMutate cs h steps key (.assign op v false) target := rfl
+      (if reachable cs h target steps then modelMutate cs h steps key (.assign op v false) target
+       else .backfill) := by
+  have hr := c14_fails_only_before_first_wildcard cs h hw hc steps hs target
+  obtain ⟨_, hne⟩ := c14_tail_independent cs h hw hc steps hs target
+  unfold modelMutate
+  cases he : evalSteps cs h steps target with
+  | ok r =>
+    rw [he] at hr
+    simp only [isOkE] at hr
+    have hmn : merrName (MutKind.assign op v true) = merrName (MutKind.assign op v false) := by
+      funext m; cases m <;> rfl
+    simp [← hr, mutOp, hmn]
+  | error e =>
+    rw [he] at hr
+    simp only [isOkE] at hr
+    cases e with
+    | pae x => simp [← hr, ignoresMiss, usesMissing]
+    | other c => exact absurd he (hne c)
 
 /-- **Checker theorem** — the form in which the property is also evaluated on the
     implementation's observation by the correspondence driver. -/
@@ -256,7 +290,7 @@ theorem c14_model_checks (cs : Classes) (h : Heap) (hw : heapWF cs h = true) (hc
     simp only
     cases hr : refMutate cs h steps key kind target with
     | ok p => obtain ⟨h', e⟩ := p; simp
-    | error e => cases e <;> simp
+    | error e => cases e <;> cases hm : usesMissing kind <;> simp [hm]
 
 /-! ### steps with effects after a wildcard; identity of the result's lists -/
 
@@ -336,16 +370,7 @@ theorem c14_model_checks_read (cs : Classes) (h : Heap) (hw : heapWF cs h = true
     simp [Res.beq_refl, nodupB_of_nodup _ this]
   | error e => cases e <;> simp
 
-/-! ### where a wildcard path can fail; Coalesce and defaults -/
-
-/-- **Entries for which the steps fail are dropped instead of raising — so a path fails only in
-    front of its first wildcard**: the evaluation succeeds iff the steps in front of the first
-    wildcard can be walked from the target (whatever follows the wildcard, whatever it matches). -/
-theorem c14_fails_only_before_first_wildcard (cs : Classes) (h : Heap) (hw : heapWF cs h = true)
-    (hc : classesWF cs = true) (steps : List (String × Val)) (hs : wfOps steps = true) (cur : Val) :
-    isOkE (evalSteps cs h steps cur) = reachable cs h cur steps := by
-  rw [(c14_tail_independent cs h hw hc steps hs cur).1]
-  exact refEval_ok_iff_reachable cs h steps cur
+/-! ### Coalesce and defaults -/
 
 /-- **Wildcards inside `Coalesce`**: `Coalesce(p₀, p₁, …, default=d)` yields the value of the first
     path whose part in front of the first wildcard can be walked — an empty list included, a wildcard
@@ -440,9 +465,12 @@ theorem c14_path_star_off_value (cs : Classes) (h : Heap) (hw : heapWF cs h = tr
   | val v => exact ⟨v, rfl⟩
   | list xs => simp [nested] at this
 
-/-- **switch on**: the segments `*` / `**` are the wildcard steps (the parts of `partsOfText`) -/
-theorem c14_path_star_on (text : String) :
-    stepsOfText true text = Glom.C01.stepsOfParts (Glom.C01.partsOfText text.toList) := rfl
+/-- **switch on**: every segment `*` / `**` is a wildcard step and nothing else is — a dotted text
+    has as many list levels as it has such segments. -/
+theorem c14_path_star_on_counts (text : String) :
+    stars (stepsOfText true text) =
+      ((Glom.C01.splitDot text.toList).filter (fun seg => seg = ['*'] || seg = ['*', '*'])).length :=
+  stars_stepsOfText_on text
 
 /-- **the switch matters for `*` / `**` segments only**: a text without such a segment denotes the
     same path under both settings. -/
@@ -521,7 +549,7 @@ private def rgHeap : Heap :=
   [ .list "list" [.ref 1, .ref 2, .ref 3], .dict "dict" [],
     .dict "dict" [(.str "k", .int 1)], .dict "dict" [(.str "k", .int 2), (.str "a", .int 0)] ]
 private def mutIs (o : Obs) (h : Heap) (e : Option String) : Bool :=
-  match o with | .mutated h' e' => h' == h && e' == e | _ => false
+  match o with | .mutated h' e' _ => h' == h && e' == e | _ => false
 private def opIs (r : Except MErr Heap) (x : Except MErr Heap) : Bool :=
   match r, x with
   | .ok a, .ok b => a == b
@@ -630,6 +658,35 @@ example : (flattenN 1 [.list [.val (.int 1)], .list []]).map (·.length) = some 
 example : stars (PathPart.stepsList [.path [.seg (.str "a"), .t [("x", .none)]], .t [("X", .none), ("[", .str "k")]]) = 2 := by
   decide
 
+-- `assign(t, 'zz.*.k', 9, missing=dict)`: the part in front of the wildcard cannot be walked — the
+-- backfill branch (C11) is reached; with `'*.k'` it is not, the factory plays no part
+example : reachable [] rgHeap (.ref 0) [("P", .str "zz"), ("x", .none)] = false ∧
+    (match modelMutate [] rgHeap [("P", .str "zz"), ("x", .none)] (.str "k") (.assign "P" (.int 9) true) (.ref 0) with
+     | .backfill => true | _ => false) = true ∧
+    (match modelMutate [] rgHeap [("P", .str "zz"), ("x", .none)] (.str "k") (.assign "P" (.int 9) false) (.ref 0) with
+     | .paeAt h => h == rgHeap | _ => false) = true := by decide
+-- `delete(t, 'zz.*.k', ignore_missing=True)`: nothing happens, the target is returned
+example : mutIs (modelMutate [] rgHeap [("P", .str "zz"), ("x", .none)] (.str "k") (.delete "P" true) (.ref 0))
+    rgHeap none = true := by decide
+-- what glom does with kinds of objects the property text does not name (reading, DESIGN §6): an object
+-- with `__slots__` only has no children, a mappingproxy yields its KEYS, a UserDict its attribute `data`
+private def catCls : Classes :=
+  [("Slot", ⟨["Slot", "object"], false, false, ""⟩), ("mappingproxy", ⟨["mappingproxy", "object"], false, true, ""⟩),
+   ("UserDict", ⟨["UserDict", "MutableMapping", "Mapping", "object"], true, true, ""⟩)]
+private def catHeap : Heap :=
+  [ .list "list" [.ref 1, .ref 2, .ref 3, .str "x", .int 4],
+    .inst "Slot" [("a", .int 1)], .dict "mappingproxy" [(.str "a", .int 5)],
+    .inst "UserDict" [("data", .ref 4)], .dict "dict" [(.str "a", .int 9)] ]
+example : heapWF catCls catHeap = true ∧ classesWF catCls = true := by decide
+example : children catCls catHeap (.ref 1) = [] ∧ children catCls catHeap (.ref 2) = [.str "a"] ∧
+    children catCls catHeap (.ref 3) = [.ref 4] := by decide
+-- `T.__star__()['a']`: the slots object has no item access (dropped), the proxy and the UserDict look the key up
+example : okIs (modelRead catCls catHeap [("x", .none), ("[", .str "a")] (.ref 0))
+    (.list [.val (.int 5), .val (.int 9)]) = true := by decide
+-- `T.__star__() + 1` over `[…, 'x', 4]`: the arithmetic step fails on everything but the number — a
+-- PathAccessError each, dropped (reading: "fail" = the step raises PathAccessError)
+example : okIs (modelRead catCls catHeap [("x", .none), ("+", .int 1)] (.ref 0)) (.list [.val (.int 5)]) = true := by
+  decide
 -- hypotheses of `c14_coalesce` / `c14_default_iff_unreachable` are met by the examples above
 example : heapWF exCls [.dict "dict" [(.str "e", .ref 1)], .list "list" []] = true ∧
     wfOps [("P", .str "zz"), ("x", .none)] = true ∧ wfOps [("P", .str "e"), ("x", .none), ("P", .str "k")] = true := by
